@@ -48,6 +48,7 @@ def nested_config(rng, depth=2):
 
 
 def gen_case(rng, ctx):
+    gen.OUTLIER["n_only_up_to"] = 9
     for _ in range(20):
         _, dsc = gen.dataset(rng, classes="D1 D2 D2", nmax=6, mmax=5)
         if ref.is_complete(dsc):
